@@ -588,9 +588,9 @@ func Run(c *core.Ctx) {
 	var probeWant []string // taken after the first (cold) scenario of the process
 	first := true
 
-	nNoif := c.Pick(96, 192)
+	nNoif := c.Pick(80, 192)
 	nCanary := c.Pick(32, 64)
-	nMixed := c.Pick(96, 192)
+	nMixed := c.Pick(80, 192)
 	type plan struct {
 		stream string
 		n      int
